@@ -19,6 +19,7 @@ import (
 )
 
 type knownFinding struct {
+	Max   int
 	Prop  string
 	Match string   // substring matched against "<func> :: <obligation name> @ <file>"
 	Paths []string // every one must occur in the failing path's trace (the specific history that fails)
@@ -47,6 +48,9 @@ func loadKnownFindings(path string) []knownFinding {
 			}
 			if strings.HasPrefix(f, "path=") {
 				kf.Paths = append(kf.Paths, strings.Trim(strings.TrimPrefix(f, "path="), `"`))
+			}
+			if strings.HasPrefix(f, "max=") {
+				kf.Max, _ = strconv.Atoi(strings.TrimPrefix(f, "max="))
 			}
 		}
 		out = append(out, kf)
@@ -249,6 +253,7 @@ func cmdCheck(args []string) int {
 	assumptions := map[string]bool{}
 	violations := 0
 	knownHits := map[string]bool{}
+	knownNames := map[string]map[string]bool{}
 	dupViol := map[string]string{}
 	dupCount := map[string]int{}
 	knownObl := 0
@@ -295,6 +300,18 @@ func cmdCheck(args []string) int {
 				}
 			}
 			if kf.Prop == prop && kf.Match != "" && strings.Contains(id, kf.Match) && onPath {
+				// "max=n": the finding covers at most n distinct obligations (a site identified by function and
+				// kind of obligation rather than by the text of an expression, so that a refactoring of the
+				// expression still matches while a second failing site in the same function is reported)
+				if kf.Max > 0 {
+					if knownNames[kf.Text] == nil {
+						knownNames[kf.Text] = map[string]bool{}
+					}
+					if !knownNames[kf.Text][name] && len(knownNames[kf.Text]) >= kf.Max {
+						continue
+					}
+					knownNames[kf.Text][name] = true
+				}
 				knownObl++
 				if !knownHits[kf.Text] {
 					knownHits[kf.Text] = true
